@@ -218,6 +218,43 @@ def shrink(profile, prop, seed, cfg, ops, want, stop_props, budget=400, workers=
                 if j is not None:
                     cur = cands[j]
                     changed = True
+        # basis-set files: drop elements, then shells, then layout noise while the violation persists
+        import copy
+
+        for i in range(len(cur)):
+            if "spec" not in cur[i]:
+                continue
+            changed = True
+            while changed and attempts < budget:
+                changed = False
+                sp = cur[i]["spec"]
+                cands = []
+
+                def with_spec(new_spec):
+                    c = [dict(o) for o in cur]
+                    c[i]["spec"] = new_spec
+                    return c
+
+                if len(sp["elements"]) > 1:
+                    for k in range(len(sp["elements"])):
+                        ns = copy.deepcopy(sp)
+                        del ns["elements"][k]
+                        cands.append(with_spec(ns))
+                for k, el in enumerate(sp["elements"]):
+                    if len(el["shells"]) > 1:
+                        for m in range(len(el["shells"])):
+                            ns = copy.deepcopy(sp)
+                            del ns["elements"][k]["shells"][m]
+                            cands.append(with_spec(ns))
+                lay = sp["layout"]
+                if lay.get("comments") or lay.get("blanks") or lay.get("inner"):
+                    ns = copy.deepcopy(sp)
+                    ns["layout"].update({"comments": False, "blanks": False, "inner": 0.0})
+                    cands.append(with_spec(ns))
+                j = first_success(cands[:48])
+                if j is not None:
+                    cur = cands[j]
+                    changed = True
     return cur, attempts
 
 
